@@ -1,5 +1,5 @@
 """C01 - every task execution is justified by the definition, exactly once (token ledger)."""
-from ovf.props.common import batches, scale, ASSUME_SIM
+from ovf.props.common import batches, family_slices, scale, ASSUME_SIM
 from ovf.workloads import conduct, mon  # noqa: F401  (conduct is a job entry point)
 from ovf.props.orders import orders  # noqa: F401
 
@@ -39,6 +39,8 @@ def jobs(tier, seed):
     # executions of several passes overlap without colliding
     js += batches("conduct", scale(tier, 40, 600), scale(tier, 20, 100), gen="loop", P=dict(P, p_loop_fork=1.0),
                   gseed=seed + 4, scheds=3, lazy=[0, 50, 70], p_fail=0.05, name="loop-fork-split")
+    # decision-shape family (exhaustive in the thorough tier, a rotating slice in the quick tier): every acyclic edge set over 4 tasks with a join x condition succeeded/failed per edge x outcome per task (4128 definitions)
+    js += family_slices("orders", 4128, 128, tier, seed + 1, parts=2, gen="cshape", p_fail=0.0, max_orders=120, max_completions=6, name="decision-shapes-orders")
     return js
 
 
